@@ -16,7 +16,6 @@ import copy
 import json
 import os
 import random
-import threading
 
 import lib
 import pool
@@ -309,14 +308,11 @@ def run(ctx):
     # (the worker pool is forked by this first map_jobs call, before the thread exists)
     check_sigs(ctx, shapes, stubs, viol, stats)
     ctx.log(f"signatures checked: {stats['signatures']}")
-    th = threading.Thread(target=evaluate)
-    th2 = threading.Thread(target=evaluate_perm)
-    th.start()
-    th2.start()
+    # (no threads next to the fork pool: a worker forked while another thread holds a lock can deadlock)
+    evaluate()
+    evaluate_perm()
     check_circuits(ctx, prep, shapes, keep, viol, stats)
     ctx.log(f"enumerated circuits: {len(keep)} of {len(cases)} replayed, findings {len(viol)}")
-    th.join()
-    th2.join()
     if "error" in box:
         raise box["error"]
     expect = box["expect"]
